@@ -2,13 +2,10 @@
    which the faithful model (= the implementation, by the correspondence check of every run) violates a
    clause of the property.  The same projects are corpus/C03/*_w.json and are replayed on the implementation
    on every run.  With the flag off each clause holds (Props/C03.v). *)
-From TL Require Import Lib.Base Lib.GenTypes Model.DryBase Model.DryPipe Gen.DryGen Model.Dry Model.DrySpec Model.DryRun Actual.DryActual.
+From TL Require Import Lib.Base Lib.GenTypes Model.DryBase Model.DryPipe Gen.DryGen Model.Dry Model.DrySpec Model.DryRun Model.DryWitness Actual.DryActual.
 
-Definition L := Build_aline.
-Definition F := Build_afile.
 
 (* q_strip_in_code: statements that differ only after `//` (floor division) and after `#` inside a string *)
-Definition strip_in_code_w : list afile := [F DPy [L false "" "def f(a):" CNone; L false "    " "p = a // 2" CNone; L false "    " "q = ""u#one""" CNone; L false "    " "r = p // 7" CNone; L false "    " "return 1" CNone]; F DPy [L false "" "def g(a):" CNone; L false "    " "p = a // 3" CNone; L false "    " "q = ""u#two""" CNone; L false "    " "r = p // 9" CNone; L false "    " "return 2" CNone]].
 
 Theorem C03_strip_in_code_refuted : ~ sound strip_in_code_w 3 (dry_model dry_actual 3 2 strip_in_code_w).
 Proof.
@@ -21,7 +18,6 @@ Theorem C03_strip_in_code_off_ok : dry_model (dwith_flag 0 dry_actual) 3 2 strip
 Proof. vm_compute. reflexivity. Qed.
 
 (* q_block_comment_kept: a /* */ comment line inside a run shared by two TypeScript files *)
-Definition block_comment_w : list afile := [F DTs [L false "" "function f(a) {" CNone; L false "  " "const x = foo(a);" CNone; L false "  " "const y = bar(x, 1);" CNone; L false "  " "" (CBlock "note"); L false "  " "const z = baz(y);" CNone; L false "  " "return z;" CNone; L false "" "}" CNone]; F DTs [L false "" "function g(a) {" CNone; L false "  " "const x = foo(a);" CNone; L false "  " "const y = bar(x, 1);" CNone; L false "  " "const z = baz(y);" CNone; L false "  " "return x;" CNone; L false "" "}" CNone]].
 
 Definition bw_1 : row := Eval vm_compute in nth 1 (ref_rows 3 block_comment_w) (Build_row 0 0 0 "").
 Definition bw_2 : row := Eval vm_compute in nth 4 (ref_rows 3 block_comment_w) (Build_row 0 0 0 "").
@@ -45,20 +41,5 @@ Theorem C03_block_comment_off_ok :
   dry_model (dwith_flag 1 dry_actual) 3 2 block_comment_w = [Build_viol 0 2 1 4 2 [(1, 2, 4)]; Build_viol 1 2 1 3 2 [(0, 2, 5)]].
 Proof. vm_compute. reflexivity. Qed.
 
-(* q_overlap_asym: block Q of file 0 (lines 6-10, stretched by blank lines) is dropped as "overlapping" block P
-   (lines 2-4); file 1 line 8 still names 0:6-10, which no reported violation covers *)
-Definition overlap_asym_w : list afile := [F DPy [L false "" "def f(a):" CNone; L false "    " "p = one(a)" CNone; L false "    " "q = two(p)" CNone; L false "    " "r = three(q)" CNone; L false "    " "u = other(r)" CNone; L false "    " "s = four(u)" CNone; L false "" "" CNone; L false "    " "t = five(s)" CNone; L false "" "" CNone; L false "    " "w = six(t)" CNone; L false "    " "return w" CNone]; F DPy [L false "" "def g(a):" CNone; L false "    " "p = one(a)" CNone; L false "    " "q = two(p)" CNone; L false "    " "r = three(q)" CNone; L false "    " "return r" CNone; L false "" "" CNone; L false "" "def h(u):" CNone; L false "    " "s = four(u)" CNone; L false "    " "t = five(s)" CNone; L false "    " "w = six(t)" CNone; L false "    " "return u" CNone]].
-
-Theorem C03_overlap_asym_refuted : ~ mutual (dry_model dry_actual 3 2 overlap_asym_w).
-Proof.
-  intros H.
-  assert (E : dry_model dry_actual 3 2 overlap_asym_w =
-              [Build_viol 0 2 1 3 2 [(1, 2, 4)]; Build_viol 1 2 1 3 2 [(0, 2, 4)]; Build_viol 1 8 1 3 2 [(0, 6, 10)]]) by (vm_compute; reflexivity).
-  rewrite E in H.
-  destruct (H (Build_viol 1 8 1 3 2 [(0, 6, 10)]) (or_intror (or_intror (or_introl eq_refl))) 0 6 10 (or_introl eq_refl)) as [v [Hin Ht]].
-  destruct Hin as [<-|[<-|[<-|[]]]]; vm_compute in Ht; discriminate.
-Qed.
-Theorem C03_overlap_asym_off_ok :
-  dry_model (dwith_flag 2 dry_actual) 3 2 overlap_asym_w =
-  [Build_viol 0 2 1 3 2 [(1, 2, 4)]; Build_viol 0 6 1 5 2 [(1, 8, 10)]; Build_viol 1 2 1 3 2 [(0, 2, 4)]; Build_viol 1 8 1 3 2 [(0, 6, 10)]].
-Proof. vm_compute. reflexivity. Qed.
+(* q_overlap_asym was repaired by fix f9c5945 (the filter reads the earlier block's own line count): its witness
+   overlap_asym_w is now a regression input, see Props/C03.v C03_overlap_witness_regression. *)
